@@ -972,18 +972,25 @@ func (s *Session) handleAuth(cmdSeq int, c Cmd, line string) bool {
 	}
 	f := strings.Split(c.Arg, " ")
 	mech := strings.ToUpper(f[0])
-	advertised := false
+	advertised, lookalike := false, false
 	for _, cp := range s.caps() {
 		if keyword(cp) == "AUTH" && s.HasExt("AUTH") {
 			for _, m := range strings.Fields(cp)[1:] {
 				if strings.ToUpper(m) == mech {
 					advertised = true
+				} else if strings.Contains(strings.ToUpper(m), mech) {
+					lookalike = true
 				}
 			}
 		}
 	}
 	if !advertised {
-		s.obs("auth-mechanism-not-advertised:"+mech, line)
+		what := "auth-mechanism-not-advertised:" + mech
+		if lookalike {
+			// another mechanism was announced whose name contains this one's
+			what += ":a-longer-name-was-announced"
+		}
+		s.obs(what, line)
 		if s.srv.Cfg.Auth.RefuseUnannounced && act.Code == 0 && act.Kind == "" {
 			// a server that only speaks the mechanisms it announced (RFC 4954 section 4: 504)
 			return s.reply(cmdSeq, "AUTH", nth, act, 504, "5.5.4", "unrecognized authentication type")
